@@ -22,6 +22,7 @@ struct ScriptCfg {
     bool ragged = false;
     bool nameVariants = false;    // parameter / group names that are case variants of other names, names and descriptions beyond what a file holds
     bool subCountDeviations = false; // frames with one sub-frame fewer / more (accepted; the header must follow when the data stay uniform)
+    bool resample = false;        // ANALOG:RATE changed and every frame replaced by one with the new sub-frame count
     bool workingCopies = false;   // copies of stored frames taken by the caller, one Frame object refilled with add()
     bool framesParam = false;     // POINT:FRAMES edited by hand at the end
     bool keepRefused = false;     // a parameter whose set() was refused is handed over all the same (it still holds its old content)
@@ -85,7 +86,7 @@ static rc::Gen<long long> frameDev(const ScriptCfg &c) {
     if (c.raggedSub) return g::weightedOneOf<long long>({{8, g::just<long long>(0)}, {1, g::just<long long>(12)}, {2, g::just<long long>(13)}});
     if (!c.deviations && c.subCountDeviations) return g::weightedOneOf<long long>({{8, g::just<long long>(0)}, {1, g::just<long long>(12)}, {2, g::elementOf(std::vector<long long>{9, 10})}});
     if (!c.deviations) return g::weightedOneOf<long long>({{9, g::just<long long>(0)}, {1, g::just<long long>(12)}});
-    return g::weightedOneOf<long long>({{6, g::just<long long>(0)}, {1, g::just<long long>(12)}, {5, uni(1, 10)}, {1, g::just<long long>(11)}});   // 11 = permuted points (known finding KF-D21 while open)
+    return g::weightedOneOf<long long>({{6, g::just<long long>(0)}, {1, g::just<long long>(12)}, {5, uni(1, 10)}, {1, g::just<long long>(14)}, {1, g::just<long long>(11)}});   // 11 = permuted points (known finding KF-D21 while open)
 }
 static rc::Gen<std::vector<Op>> gFrameAdd(const ScriptCfg &c) {
     // build a frame in a slot and submit it
@@ -100,12 +101,12 @@ static rc::Gen<std::vector<Op>> gFrameAdd(const ScriptCfg &c) {
     });
 }
 static rc::Gen<long long> colDev(const ScriptCfg &c, bool analog) {
-    if (!c.deviations) return analog ? g::just<long long>(0) : g::weightedOneOf<long long>({{7, g::just<long long>(0)}, {1, g::just<long long>(12)}});   // 12: accepted, the spare point is ignored
+    if (!c.deviations) return analog ? g::weightedOneOf<long long>({{8, g::just<long long>(0)}, {1, g::just<long long>(13)}, {1, g::just<long long>(14)}}) : g::weightedOneOf<long long>({{7, g::just<long long>(0)}, {1, g::just<long long>(12)}});   // 12: accepted, the spare point is ignored
     std::vector<long long> devs = {1, 2, 3, 4, 5, 6};
     if (!analog) devs.push_back(12);
     if (c.ragged) devs.push_back(7);
     if (c.ragged && !analog) devs.push_back(11);
-    if (analog) { devs.push_back(9); devs.push_back(10); if (c.ragged) devs.push_back(11); }
+    if (analog) { devs.push_back(9); devs.push_back(10); if (c.ragged) devs.push_back(11); devs.push_back(13); devs.push_back(14); }
     return g::weightedOneOf<long long>({{5, g::just<long long>(0)}, {5, g::elementOf(devs)}});
 }
 static rc::Gen<Op> gEditOp(const ScriptCfg &c) {
@@ -130,6 +131,7 @@ static rc::Gen<Op> gEditOp(const ScriptCfg &c) {
         w.push_back({2, op("refill", {uni(0, 3), frameDev(c), seedv()})});       // one Frame object refilled with add() (README style)
         w.push_back({1, op("slotcopy", {uni(0, 3), sized(0, 20)})});             // a working copy of a stored frame
     }
+    if (c.resample) w.push_back({2, op("resample", {uni(0, 5), seedv()})});
     if (c.reload) w.push_back({2, op("reload", {})});
     if (c.print) w.push_back({1, op("print", {})});
     if (c.selfParam && c.callerReuse) w.push_back({2, op("selfelem", {uni(0, 3), uni(0, 2), sized(0, 12), g::weightedOneOf<long long>({{3, uni(0, 3)}, {2, uni(4, 39)}})})});
@@ -186,16 +188,16 @@ rc::Gen<std::vector<Op>> genScriptOps(const ScriptCfg &c) {
 static ScriptCfg cfgFor(const std::string &id, int tier) {
     ScriptCfg c;
     if (tier) { c.maxFrames = 40; c.maxSetup = 24; c.maxEdits = 20; }
-    if (id == "C01") { c.extend = true; }
-    else if (id == "C03") { c.reload = true; c.subCountDeviations = true; }     // accepted frames with another sub-frame count are saved too
-    else if (id == "C05") { c.deviations = true; c.reload = true; c.lateRates = true; c.fillAtEnd = false; c.badParams = true; }
+    if (id == "C01") { c.extend = true; c.resample = true; }
+    else if (id == "C03") { c.reload = true; c.subCountDeviations = true; c.resample = true; }     // accepted frames with another sub-frame count are saved too
+    else if (id == "C05") { c.resample = true; c.deviations = true; c.reload = true; c.lateRates = true; c.fillAtEnd = false; c.badParams = true; }
     else if (id == "C06") { c.workingCopies = true; c.fillAtEnd = false; c.callerReuse = false; c.deviations = true; }   // accepted deviating frames (e.g. points only) must be stored exactly as given too
     else if (id == "C07") { c.deviations = true; c.fillAtEnd = false; }
     else if (id == "C08") { c.workingCopies = true; c.callerReuse = true; c.fillAtEnd = false; }
     else if (id == "C09") { c.badParams = true; c.nameVariants = true; c.selfParam = true; c.fillAtEnd = false; c.maxFrames = 2; }
     else if (id == "C10") { c.deviations = true; c.badParams = true; c.nameVariants = true; c.ragged = true; c.reload = true; c.fillAtEnd = false; }
-    else if (id == "C13") { c.workingCopies = true; c.selfParam = true; c.keepRefused = true; c.deviations = true; c.badParams = true; c.callerReuse = true; c.reload = true; c.print = true; c.ragged = false; }
-    else if (id == "C14") { c.print = false; c.raggedSub = true; }
+    else if (id == "C13") { c.resample = true; c.workingCopies = true; c.selfParam = true; c.keepRefused = true; c.deviations = true; c.badParams = true; c.callerReuse = true; c.reload = true; c.print = true; c.ragged = false; }
+    else if (id == "C14") { c.print = false; c.raggedSub = true; c.resample = true; }
     else if (id == "C15") { c.framesParam = true; }
     return c;
 }
